@@ -22,7 +22,7 @@ MANIFEST = {
             "them), node-list formatting of Builder/Compiler (format_node), format_feature/type_id/data. AArch64 operand and named-label "
             "parse-back are monitored on every run, not proved for all inputs. The encoder's bytes are inputs here (C01/C02).",
 }
-MODS = ["AsmjitVerif.Props.C20", "AsmjitVerif.Props.C20Names", "AsmjitVerif.Props.C20Mem", "AsmjitVerif.Props.C20Read", "AsmjitVerif.Props.C20Line", "AsmjitVerif.Props.C20A64Line", "AsmjitVerif.Props.C20Node", "AsmjitVerif.Props.C20Column"]
+MODS = ["AsmjitVerif.Props.C20", "AsmjitVerif.Props.C20Names", "AsmjitVerif.Props.C20Mem", "AsmjitVerif.Props.C20Read", "AsmjitVerif.Props.C20Line", "AsmjitVerif.Props.C20A64Line", "AsmjitVerif.Props.C20Node", "AsmjitVerif.Props.C20Column", "AsmjitVerif.Props.C20Virt", "AsmjitVerif.Props.C20NodeNum"]
 
 M64 = (1 << 64) - 1
 FF = {"mc": 0x1, "alias": 0x8, "explain": 0x10, "heximm": 0x20, "hexoff": 0x40, "casts": 0x100, "pos": 0x200, "regtype": 0x400}
